@@ -103,6 +103,12 @@ fn explain_sig(a: &Actual, r: &RefSig, d: &RefSig, eol_pre: bool, eol_clean: boo
         if a.olayout.len() < r.olayout.len() || a.olayout[..r.olayout.len()] != r.olayout[..] {
             return None;
         }
+        // a malformed list ends with the kind of the option that could not be completed
+        if let (true, Some(k)) = (r.malformed, &r.aborted_kind) {
+            if a.olayout.get(r.olayout.len()) != Some(k) {
+                return None;
+            }
+        }
         if !r.malformed || a.quirks_sorted.iter().any(|q| q == "bad") {
             return Some(vec![]);
         }
